@@ -192,6 +192,7 @@ pub const VARIANTS: &[&str] = &[
     "pp-macros",
     "ctl-target-macro",
     "ctl-concat",
+    "layout-trap",
 ];
 
 fn decls_of(p: &Program) -> Vec<DeclDesc> {
@@ -249,7 +250,43 @@ fn add_state(src: &str) -> String {
     out
 }
 
-fn build(seed: u64, variant: &str) -> Option<Built> {
+/// remove resource `i` from the program (uses are re-indexed)
+fn drop_resource(p: &mut Program, i: usize) {
+    if i >= p.resources.len() {
+        return;
+    }
+    let fix = |f: &mut Func| {
+        f.uses.retain(|u| *u != i);
+        for u in f.uses.iter_mut() {
+            if *u > i {
+                *u -= 1;
+            }
+        }
+    };
+    for h in p.helpers.iter_mut() {
+        fix(h);
+    }
+    for e in p.entries.iter_mut() {
+        fix(&mut e.func);
+    }
+    p.resources.remove(i);
+}
+
+/// `variant~r0.r3.p1.h.s`: the variant applied to the generated program minus resources 0 and 3 (indices of the
+/// original program), minus pipeline 1, without helper calls (`h`) and without static globals (`s`); used by shrinking
+fn build(seed: u64, variant_full: &str) -> Option<Built> {
+    let (variant, drops) = match variant_full.split_once('~') {
+        Some((v, d)) => (v, d),
+        None => (variant_full, ""),
+    };
+    let mut b = build_with(seed, variant, drops)?;
+    if !drops.is_empty() {
+        b.expect_front_reject = false;
+    }
+    Some(b)
+}
+
+fn build_with(seed: u64, variant: &str, drops: &str) -> Option<Built> {
     let mut rng = Rng::new(seed);
     let opts = GenOpts { allow_mesh: seed % 3 == 0, ..GenOpts::default() };
     let mut prog = gen_program(&mut rng, &opts);
@@ -260,6 +297,46 @@ fn build(seed: u64, variant: &str) -> Option<Built> {
         tries += 1;
     }
     let mut expect_front_reject = variant.starts_with("e-");
+    // shrinking: drop parts of the generated program (highest index first so that indices stay meaningful)
+    let mut rdrop: Vec<usize> = Vec::new();
+    let mut pdrop: Vec<usize> = Vec::new();
+    for d in drops.split('.').filter(|d| !d.is_empty()) {
+        match (d.chars().next(), d[1..].parse::<usize>()) {
+            (Some('r'), Ok(i)) => rdrop.push(i),
+            (Some('p'), Ok(i)) => pdrop.push(i),
+            (Some('h'), _) => {
+                for e in prog.entries.iter_mut() {
+                    e.func.calls.clear();
+                }
+                prog.helpers.clear();
+            }
+            (Some('s'), _) => {
+                prog.nstatics = 0;
+                for e in prog.entries.iter_mut() {
+                    e.func.statics.clear();
+                }
+                for h in prog.helpers.iter_mut() {
+                    h.statics.clear();
+                }
+            }
+            _ => return None,
+        }
+    }
+    if rdrop.iter().any(|i| *i >= prog.resources.len()) || pdrop.iter().any(|i| *i >= prog.pipes.len()) {
+        return None;
+    }
+    rdrop.sort();
+    rdrop.dedup();
+    for i in rdrop.into_iter().rev() {
+        drop_resource(&mut prog, i);
+    }
+    pdrop.sort();
+    pdrop.dedup();
+    for i in pdrop.into_iter().rev() {
+        if i < prog.pipes.len() {
+            prog.pipes.remove(i);
+        }
+    }
     // program-level edits
     if let Some(which) = variant.strip_prefix("reserved-") {
         let (name, want_cb) = match which {
@@ -348,6 +425,12 @@ fn build(seed: u64, variant: &str) -> Option<Built> {
             }
             includes.push(("common/decls.rssl".into(), common));
             main
+        }
+        "layout-trap" => {
+            // a struct whose HLSL structured-buffer layout and Metal layout differ: accepted everywhere as long as the
+            // optional layout validation is off for every target
+            decls.push(DeclDesc { name: "g_trap".into(), kind: "StructuredBuffer".into(), len: "-".into(), ss: false });
+            insert_lines(&src, ff, "struct LayoutTrap { float a; float2 b; float3 c; };\nStructuredBuffer<LayoutTrap> g_trap;")
         }
         "ctl-target-macro" => {
             control = true;
@@ -959,10 +1042,14 @@ fn run_pp(user: &str, program: &str, out: &mut Out, hist: &mut Hist, defs_by_tar
     if mentions && !all_same {
         hist.add("pp-mentions-and-differs");
     }
+    if obs_all[0].1.starts_with("panic:") {
+        // a panic that every target shares is C08's business, not a disagreement between targets
+        hist.add("pp-panic-on-every-target");
+    }
     for (t, o) in &obs_all {
-        let oracle = if !mentions && !all_same {
+        let oracle = if !mentions && *o != obs_all[0].1 {
             format!("FAIL:preprocessor output depends on the target although RSSL_TARGET_* is not mentioned: dx `{}` vs {} `{}`", obs_all[0].1, t.name(), o)
-        } else if o.starts_with("panic:") {
+        } else if o.starts_with("panic:") && !all_same {
             format!("FAIL:panic {}", &o[6..])
         } else {
             "ok".to_string()
